@@ -128,8 +128,9 @@ def facts_path(config="default", repo=None, crate="jbonsai", deps=False):
     """Path of the cached facts document for the current tree, extracting if necessary.
     deps=True runs the driver on every crate of the build (RUSTC_WRAPPER), thorough tier."""
     repo = repo or REPO
-    tag = "deps" if deps else ("repo" if os.path.abspath(repo) == os.path.abspath(REPO) else
-                               os.path.basename(os.path.abspath(repo)))
+    tag = "repo" if os.path.abspath(repo) == "/repo" else os.path.basename(os.path.abspath(repo))
+    if deps:
+        tag = "deps-" + tag
     os.makedirs(CACHE, exist_ok=True)
     with open(os.path.join(CACHE, "lock-" + tag), "w") as lock:
         fcntl.flock(lock, fcntl.LOCK_EX)
